@@ -20,7 +20,43 @@ import (
 
 var keys = []string{"a", "b", "c", "d"}
 var allKeys = []string{"a", "b", "c", "d", "e"} // e is never present
-var vals = []string{"x", "y"}
+// values: two strings and, because path and member tags hold lists, three list
+// values of which each shorter one is a prefix of the longer ones ("L:" marks a
+// list of string items; "L:" alone is the empty list)
+var vals = []string{"x", "y", "L:", "L:p,q", "L:p,q,r"}
+
+// valExpr builds the tag value a reference value stands for.
+func valExpr(v string) b6.Expression {
+	if !strings.HasPrefix(v, "L:") {
+		return b6.NewStringExpression(v)
+	}
+	var es []b6.AnyExpression
+	if len(v) > 2 {
+		for _, item := range strings.Split(v[2:], ",") {
+			es = append(es, b6.StringExpression(item))
+		}
+	}
+	return b6.NewExpressions(es)
+}
+
+// valString renders a real tag value in the reference's notation.
+func valString(e b6.Expression) string {
+	if l, ok := e.AnyExpression.(*b6.Expressions); ok {
+		var items []string
+		for _, x := range *l {
+			items = append(items, x.String())
+		}
+		return "L:" + strings.Join(items, ",")
+	}
+	if l, ok := e.AnyExpression.(b6.Expressions); ok {
+		var items []string
+		for _, x := range l {
+			items = append(items, x.String())
+		}
+		return "L:" + strings.Join(items, ",")
+	}
+	return e.String()
+}
 
 type kv struct{ k, v string }
 
@@ -43,7 +79,7 @@ func refGet(l []kv, k string) (string, bool) {
 func toTags(l []kv) b6.Tags {
 	t := make(b6.Tags, 0, len(l))
 	for _, e := range l {
-		t = append(t, b6.Tag{Key: e.k, Value: b6.NewStringExpression(e.v)})
+		t = append(t, b6.Tag{Key: e.k, Value: valExpr(e.v)})
 	}
 	return t
 }
@@ -51,7 +87,7 @@ func toTags(l []kv) b6.Tags {
 func show(t b6.Tags) string {
 	var s []string
 	for _, e := range t {
-		s = append(s, e.Key+"="+e.Value.String())
+		s = append(s, e.Key+"="+valString(e.Value))
 	}
 	return "[" + strings.Join(s, " ") + "]"
 }
@@ -93,9 +129,9 @@ func buildOps() []op {
 			ops = append(ops, op{
 				name: fmt.Sprintf("ModifyOrAddTag(%s=%s)", k, v),
 				real: func(t *b6.Tags) string {
-					mod, old := t.ModifyOrAddTag(b6.Tag{Key: k, Value: b6.NewStringExpression(v)})
+					mod, old := t.ModifyOrAddTag(b6.Tag{Key: k, Value: valExpr(v)})
 					if mod {
-						return "modified old=" + old.String()
+						return "modified old=" + valString(old)
 					}
 					return "added"
 				},
@@ -190,7 +226,7 @@ func compare(r *kit.Result, t b6.Tags, l []kv, what string, cls string) bool {
 	ok := len(t) == len(l)
 	if ok {
 		for i := range l {
-			if t[i].Key != l[i].k || t[i].Value.String() != l[i].v {
+			if t[i].Key != l[i].k || valString(t[i].Value) != l[i].v {
 				ok = false
 			}
 		}
@@ -202,7 +238,7 @@ func compare(r *kit.Result, t b6.Tags, l []kv, what string, cls string) bool {
 	for _, k := range allKeys {
 		g := t.Get(k)
 		v, present := refGet(l, k)
-		if present != g.IsValid() || (present && (g.Key != k || g.Value.String() != v)) {
+		if present != g.IsValid() || (present && (g.Key != k || valString(g.Value) != v)) {
 			r.Violate("Get:wrong", "%s: Get(%s) on %s = %v valid=%v, want %q present=%v", what, k, show(t), g, g.IsValid(), v, present)
 			return false
 		}
@@ -233,7 +269,7 @@ func main() {
 	kit.Main(&kit.Check{
 		ID:    "C39",
 		Level: "model_checking",
-		Rule: "Part A: every (state, operation) pair of the complete state graph of b6.Tags over keys {a,b,c,d} (+ never-present e) and values {x,y}; each state in three layouts of its backing array (exact capacity, 1 and 2 spare slots holding stale tags); a pair is non-trivial when the operation changes the reference list. " +
+		Rule: "Part A: every (state, operation) pair of the complete state graph of b6.Tags over keys {a,b,c,d} (+ never-present e) and values {x, y, empty list, list [p q], list [p q r]} (list values as in path tags; each shorter list is a prefix of the longer); each state in three layouts of its backing array (exact capacity, 1 and 2 spare slots holding stale tags); a pair is non-trivial when the operation changes the reference list. " +
 			"Part B: every operation sequence from the empty list up to the depth bound on one live value, no deduplication. Oracle: ordered association list; every Get after every step.",
 		Assumptions: []string{"tag values are immutable string expressions", "keys within a list are distinct (the statement's precondition; preserved by every operation of the alphabet)"},
 		Build: func(tier string) (kit.Space, string) {
